@@ -334,6 +334,38 @@ def _resolver_signature(r: int, k: int, level: int) -> bool:
     return result(got == exp and off, True)
 
 
+def _args_for(kind):
+    return {
+        "none": [], "required": [Argument("x", NonNullType(Int))], "optional": [Argument("x", Int)],
+        "defaulted": [Argument("x", Int, default_value=1)], "python_name": [Argument("x", Int, python_name="px")],
+    }[kind]
+
+
+def _resolver_shared(r: int, k1: int, k2: int, order: bool, late: bool) -> bool:
+    """
+    pre: 0 <= r < len(RESOLVERS) and 0 <= k1 < len(ARGKINDS) and 0 <= k2 < len(ARGKINDS)
+    pre: shard_of(r)
+    post: _
+    """
+    fn, K1, K2 = pick(r, RESOLVERS), pick(k1, ARGKINDS), pick(k2, ARGKINDS)
+    ORD, LATE = (True if order else False), (True if late else False)
+    with untraced():
+        # ONE callable serves two fields whose same-named arguments differ in required / default / python name
+        fa = Field("f", Int, args=_args_for(K1), resolver=None if LATE else fn)
+        fb = Field("g", Int, args=_args_for(K2), resolver=None if LATE else fn)
+        ta, tb = ObjectType("TA", [fa]), ObjectType("TB", [fb])
+        q = ObjectType("Query", [Field("a", ta), Field("b", tb)] if ORD else [Field("b", tb), Field("a", ta)])
+        schema = Schema(q, types=[ta, tb] if ORD else [tb, ta])
+        if LATE:
+            # validate first (valid: default resolvers), then register the shared callable and validate again
+            schema.validate()
+            schema.register_resolver("TA", "f", fn)
+            schema.register_resolver("TB", "g", fn)
+        exp = spec_resolver_ok(fn, K1) and spec_resolver_ok(fn, K2)
+        got = validate_verdict(schema) == 0
+    return result(got == exp, True)
+
+
 # ------------------------------------------------------------------ cache invalidation across registrations
 def _cache(o1: int, o2: int, o3: int) -> bool:
     """
@@ -394,6 +426,12 @@ CONDITIONS = [
         name="resolver_signature", fn=_resolver_signature, quick=60, thorough=120,
         bound="12 resolver shapes x 5 argument kinds x 2 attachment levels (field resolver / type default resolver); the schema-wide default resolver is out: it is validated against every field including introspection fields, so only generic signatures are valid there",
         symbolic={"r": "choice", "k": "choice", "level": "choice"}, witness={"r": 3, "k": 2, "level": 0},
+    ),
+    Cond(
+        name="resolver_shared", fn=_resolver_shared, quick=100, thorough=200, per_path=30, shards_quick=12, shards_thorough=12,
+        bound="one resolver callable (12 shapes) attached to two fields of two types whose same-named argument is of 5 x 5 kinds, both type orders, attached at construction or registered after a first validate(): valid iff valid for each field on its own",
+        symbolic={"r": "choice: resolver shape", "k1,k2": "choice: argument kinds", "order": "choice: type order", "late": "choice: registered after a validate()"},
+        witness={"r": 5, "k1": 1, "k2": 2, "order": True, "late": False},
     ),
     Cond(
         name="cache", fn=_cache, quick=60, thorough=120,
